@@ -72,6 +72,9 @@ static plan::Plan genC18t(uint64_t seed, const std::string& tier) {
   int ncmd = tier == "thorough" ? 10 + static_cast<int>(r.below(30)) : 5 + static_cast<int>(r.below(15));
   for (int cl = 0; cl < nclients; cl++) {
     p.add("client id=" + std::to_string(cl) + " at=" + std::to_string(50 + r.below(200)));
+    // some connections are in listen mode (the connection then ticks every 2 s) and send their lines slowly
+    bool listening = r.chance(0.2);
+    if (listening) { addCmd(&p, r, cl, "listen", "tag=expect prop=C18 cls=tcp-argument-vector sig=listen-mode expect=" + hx("listen started")); ncmd = std::min(ncmd, 6); }
     for (int k = 0; k < ncmd; k++) {
       // the line is built from raw pieces; the oracle derives the argument vector from the line by the stated rule
       std::string line = r.chance(0.5) ? "encode" : (r.chance(0.5) ? "e" : "ENCODE");
@@ -88,6 +91,12 @@ static plan::Plan genC18t(uint64_t seed, const std::string& tier) {
         else line += (r.chance(0.5) ? "\"" : "'") + arg;   // unterminated
       }
       if (r.chance(0.1)) line += " ";
+      if (listening && r.chance(0.6)) {
+        // two segments, the second one after more than the 2 s tick of a listening connection
+        p.add("cmd client=" + std::to_string(cl) + " text=" + hx(line) + " cuts=" + std::to_string(1 + r.below(static_cast<uint32_t>(line.size() - 1))) + " gap=" +
+              std::to_string(2100000 + r.below(1500000)) + " think=5 pipe=0 crlf=" + (r.chance(0.3) ? "1" : "0") + " tag=args");
+        continue;
+      }
       addCmd(&p, r, cl, line, "tag=args");
     }
   }
@@ -221,12 +230,15 @@ static plan::Plan genC12o(uint64_t seed, const std::string& tier) {
     defs.push_back(d);
   }
   // updates seen passively between another master and a slave: 4..6 ID bytes plus master data, next to a definition with a longer ID
-  int np = static_cast<int>(r.below(3));
+  int np = static_cast<int>(r.below(4));
   uint8_t sb2 = static_cast<uint8_t>(0x20 + r.below(8));
+  // names that contain each other; the telegram of the shortest one comes last (a telegram for "temp" must not touch
+  // what is stored for "temp2" and "outtemp")
+  static const char* pnames[] = {"temp2", "outtemp", "temp"};
   for (int i = 0; i < np; i++) {
     D d;
     d.circuit = "cir";
-    d.name = "p" + std::to_string(i);
+    d.name = pnames[3 - np + i];
     int idl = 3 + static_cast<int>(r.below(4));
     Bytes id;
     for (int q = 0; q < idl; q++) id.push_back(static_cast<uint8_t>(q < 2 ? 0x0e : (r.chance(0.3) ? 0 : r.below(256))));
@@ -269,9 +281,33 @@ static plan::Plan genC12o(uint64_t seed, const std::string& tier) {
     p.add("bus script idle=" + std::to_string(r.below(2)) + " note=update steps=" + simbus::stepsToText(st));
   }
   p.add("client id=0 at=1500");
+  // a defaults row that carries a field belongs to its file only: a message of the second file (read later) and a message
+  // defined by a client afterwards must not inherit that field
+  bool withRangeHeader = r.chance(0.6);
+  if (r.chance(0.5)) {
+    uint8_t sb4 = static_cast<uint8_t>(0x38 + r.below(8));
+    snprintf(buf, sizeof(buf), "*r,dflt,,,,08,b5%02x,0d,skip,,IGN:1", sb4);
+    p.add("csv l=" + hx(buf));
+    p.add("csv l=" + hx("r,dflt,d0,,,,,60,v,,UCH"));
+    snprintf(buf, sizeof(buf), "r,cir2,e0,,,08,b5%02x,0e61,v,,UIN%s", sb4, withRangeHeader ? ",,,," : "");
+    p.add("csvz l=" + hx(buf));
+    snprintf(buf, sizeof(buf), "msg name=e0 circuit=cir2 level=- dir=r zz=0x08 pb=0xb5 sb=0x%02x id=0e61 fields=UIN:2 poll=0", sb4);
+    p.add(buf);
+    snprintf(buf, sizeof(buf), "slave zz=0x08 pb=0xb5 sb=0x%02x id=0e61 len=2 layout=n2", sb4);
+    p.add(buf);
+    addCmd(&p, r, 0, "read -f -c cir2 e0", "tag=read msg=e0 force=1 prop=C12");
+    snprintf(buf, sizeof(buf), "define r,cir3,e1,,,08,b5%02x,0e62,v,,UIN", sb4);
+    addCmd(&p, r, 0, buf, "tag=none");
+    snprintf(buf, sizeof(buf), "msg name=e1 circuit=cir3 level=- dir=r zz=0x08 pb=0xb5 sb=0x%02x id=0e62 fields=UIN:2 poll=0", sb4);
+    p.add(buf);
+    snprintf(buf, sizeof(buf), "slave zz=0x08 pb=0xb5 sb=0x%02x id=0e62 len=2 layout=n2", sb4);
+    p.add(buf);
+    addCmd(&p, r, 0, "read -f -c cir3 e1", "tag=read msg=e1 force=1 prop=C12");
+    addArg(&p, "--enabledefine");
+  }
   // number types restricted by a range column are derived once per process and cached: same base type, divisor, maximum
   // and step with different minima, in a seeded order, in a second file with its own column header
-  if (r.chance(0.6)) {
+  if (withRangeHeader) {
     p.add("csvzhdr l=" + hx("type,circuit,name,comment,qq,zz,pbsb,id,*name,part,type,divisor/values,range,unit,comment"));
     static const int minima[] = {2, 5, 10, 15, 20};
     int mx = 30 + static_cast<int>(r.below(50));
@@ -499,6 +535,21 @@ static plan::Plan genC09(uint64_t seed, const std::string& tier) {
   p.add("cfg minms=400 maxms=180000");
   std::vector<MsgDef> defs = randomDefs(r, 3 + static_cast<int>(r.below(6)), {}, true, true);
   for (auto& m : defs) emitMsg(&p, m);
+  // a second device that understands the same message (for requests with an explicit destination)
+  std::map<std::string, int> altDst;
+  for (auto& m : defs) {
+    if (!m.chainIds.empty() || m.poll || !r.chance(0.3)) continue;
+    int zz2 = m.zz == 0x08 ? 0x15 : 0x08;
+    bool clash = false;
+    for (auto& o : defs) if (&o != &m && o.zz == zz2 && o.pb == m.pb && o.sb == m.sb) clash = true;   // keep attribution simple
+    if (clash) continue;
+    altDst[m.name] = zz2;
+    MsgDef m2 = m;
+    m2.zz = static_cast<uint8_t>(zz2);
+    plan::Plan tmp;
+    emitMsg(&tmp, m2);
+    for (auto& l : tmp.lines) if (l.kind == "slave") p.add(l.str());
+  }
   int nclients = 1 + static_cast<int>(r.below(3));
   int n = tier == "thorough" ? 8 + static_cast<int>(r.below(25)) : 4 + static_cast<int>(r.below(10));
   // each client works on its own messages so that exchanges are attributable
@@ -509,6 +560,11 @@ static plan::Plan genC09(uint64_t seed, const std::string& tier) {
       for (size_t i = 0; i < defs.size(); i++) if (static_cast<int>(i % static_cast<size_t>(nclients)) == cl) mine.push_back(i);
       if (mine.empty()) break;
       const MsgDef& m = defs[mine[r.below(static_cast<uint32_t>(mine.size()))]];
+      // an explicitly requested destination beats the one of the definition
+      bool other = m.chainIds.empty() && altDst.count(m.name) && r.chance(0.3);
+      char dbuf[40] = "";
+      if (other) snprintf(dbuf, sizeof(dbuf), "-d %02x ", altDst[m.name]);
+      std::string dattr = other ? " dst=" + std::to_string(altDst[m.name]) : "";
       if (m.write) {
         std::string values, enc;
         for (size_t f = 0; f < m.fields.size(); f++) {
@@ -518,9 +574,12 @@ static plan::Plan genC09(uint64_t seed, const std::string& tier) {
           enc += e;
         }
         bool quote = values.find(' ') != std::string::npos;
-        addCmd(&p, r, cl, "write -c " + m.circuit + " " + m.name + " " + (quote ? "\"" + values + "\"" : values), "tag=write msg=" + m.name + " enc=" + enc);
+        addCmd(&p, r, cl, std::string("write ") + dbuf + "-c " + m.circuit + " " + m.name + " " + (quote ? "\"" + values + "\"" : values), "tag=write msg=" + m.name + " enc=" + enc + dattr);
+      } else if (other) {
+        addCmd(&p, r, cl, std::string("read -f ") + dbuf + "-c " + m.circuit + " " + m.name, "tag=read msg=" + m.name + " force=1" + dattr);
       } else {
-        bool force = r.chance(0.7);
+        // (the cache of a definition does not tell destinations apart: no cached reads where a second device is used)
+        bool force = r.chance(0.7) || altDst.count(m.name);
         if (m.chainIds.empty() && r.chance(0.25)) {
           char hb[64];
           snprintf(hb, sizeof(hb), "%02x%02x%02x%02x", m.zz, m.pb, m.sb, static_cast<unsigned>(m.id.size()));
@@ -697,6 +756,11 @@ static plan::Plan genC16(uint64_t seed, const std::string& tier) {
     int k = static_cast<int>(r.below(4));
     for (int q = 0; q < k; q++) { std::string l = r.chance(0.1) ? "*" : std::string(pool[r.below(10)]); if (std::find(u.lv.begin(), u.lv.end(), l) == u.lv.end()) u.lv.push_back(l); }
     users.push_back(u);
+    if (r.chance(0.25)) {
+      // an earlier line for the same user with another secret and other levels: the later line counts
+      std::string old = u.name + ",old" + std::to_string(r.below(100)) + "," + pool[r.below(10)] + (r.chance(0.3) ? ",*" : "");
+      p.add("acl l=" + hx(old));
+    }
     std::string line = u.name + "," + u.secret;
     std::string lv;
     for (auto& l : u.lv) { line += "," + l; lv += (lv.empty() ? "" : ";") + l; }
@@ -709,8 +773,16 @@ static plan::Plan genC16(uint64_t seed, const std::string& tier) {
     int k = 1 + static_cast<int>(r.below(2));
     for (int q = 0; q < k; q++) { std::string l = pool[r.below(10)]; if (std::find(d.begin(), d.end(), l) == d.end()) d.push_back(l); }
     for (auto& l : d) deflv += (deflv.empty() ? "" : ";") + l;
-    if (r.chance(0.5)) addArg(&p, "--accesslevel=" + deflv);
-    else { std::string line = "*,"; for (auto& l : d) line += "," + l; p.add("acl l=" + hx(line)); }
+    if (r.chance(0.4)) addArg(&p, "--accesslevel=" + deflv);
+    else {
+      // the ACL line for "*" replaces what --accesslevel gave
+      if (r.chance(0.5)) addArg(&p, std::string("--accesslevel=") + (r.chance(0.3) ? "*" : pool[r.below(10)]));
+      std::string line = "*,"; for (auto& l : d) line += "," + l; p.add("acl l=" + hx(line));
+    }
+  } else if (r.chance(0.2)) {
+    // an ACL line for "*" without any level takes the default levels of --accesslevel away again
+    addArg(&p, std::string("--accesslevel=") + pool[r.below(10)]);
+    p.add("acl l=" + hx("*,"));
   }
   p.add("user name=* secret=- levels=" + (deflv.empty() ? "-" : deflv));
   // the MQTT data sink filters with the levels of the ACL user "mqtt", otherwise with the default levels
@@ -731,6 +803,26 @@ static plan::Plan genC16(uint64_t seed, const std::string& tier) {
   }
   std::vector<MsgDef> defs = randomDefs(r, 3 + static_cast<int>(r.below(5)), levels, false, false);
   for (auto& m : defs) emitMsg(&p, m);
+  // passively seen broadcast messages with a level: once their data is there, a cached read by name must still be refused
+  std::vector<std::string> passiveNames;
+  if (r.chance(0.4)) {
+    int np = 1 + static_cast<int>(r.below(2));
+    for (int i = 0; i < np; i++) {
+      std::string lvl = levels[r.below(static_cast<uint32_t>(levels.size()))];
+      char b2[200];
+      snprintf(b2, sizeof(b2), "u,cir#%s,pas%d,,,fe,b516,%02x,v,m,UIN,,,", lvl.c_str(), i, 0x70 + i);
+      p.add("csv l=" + hx(b2));
+      snprintf(b2, sizeof(b2), "msg name=pas%d circuit=cir level=%s dir=r zz=0xfe pb=0xb5 sb=0x16 id=%02x fields=UIN:2 poll=0", i, lvl.c_str(), 0x70 + i);
+      p.add(b2);
+      int v = static_cast<int>(r.below(65000));
+      Bytes master = {0x10, 0xfe, 0xb5, 0x16, 0x03, static_cast<uint8_t>(0x70 + i), static_cast<uint8_t>(v & 0xff), static_cast<uint8_t>(v >> 8)};
+      std::vector<simbus::Step> st;
+      for (uint8_t b : ref::renderMasterPart(master)) { simbus::Step s2; s2.who = 'M'; s2.b = b; st.push_back(s2); }
+      simbus::Step e; e.who = 'M'; e.b = ref::SYN; st.push_back(e);
+      p.add("bus script idle=1 note=passive steps=" + simbus::stepsToText(st));
+      passiveNames.push_back("pas" + std::to_string(i));
+    }
+  }
   int nclients = 2 + static_cast<int>(r.below(4));
   int n = tier == "thorough" ? 6 + static_cast<int>(r.below(20)) : 3 + static_cast<int>(r.below(8));
   int clientId = 0;
@@ -768,6 +860,11 @@ static plan::Plan genC16(uint64_t seed, const std::string& tier) {
         std::string name = a == 3 ? "nobody" : u.name;
         std::string secret = a == 0 || a == 1 ? u.secret : "wrong";
         addCmd(&p, r, clientId, "auth " + name + " " + secret, "tag=auth user=" + name + " secret=" + secret);
+        continue;
+      }
+      if (!passiveNames.empty() && r.chance(0.25)) {
+        const std::string& pn = passiveNames[r.below(static_cast<uint32_t>(passiveNames.size()))];
+        addCmd(&p, r, clientId, std::string(r.chance(0.5) ? "read -c cir " : "read ") + pn + (r.chance(0.3) ? " v" : ""), "tag=acl lenient=1 kind=read msg=" + pn);
         continue;
       }
       const MsgDef& m = defs[r.below(static_cast<uint32_t>(defs.size()))];
@@ -849,11 +946,70 @@ static plan::Plan genC18m(uint64_t seed, const std::string& tier) {
     std::string dir = m.write ? "set" : (r.chance(0.8) ? "get" : "list");
     std::string data, enc;
     if (m.write) for (size_t f = 0; f < m.fields.size(); f++) { std::string e; std::string v = randomValueFor(r, m.fields[f], &e); data += (f ? ";" : "") + v; enc += e; }
-    p.add("mqtt at=" + std::to_string(t) + " topic=" + hx(build(m, field) + "/" + dir) + " data=" + hx(data) + " msg=" + m.name + " dir=" + dir + (enc.empty() ? "" : " enc=" + enc));
+    std::string topic = build(m, field);
+    std::string extra;
+    // topics that end inside the template: without the trailing field part (get), or with the circuit only (list)
+    size_t ic = tmpl.find("%circuit"), in = tmpl.find("%name"), iff = tmpl.find("%field");
+    auto buildPrefix = [&](size_t upto) { std::string saved = tmpl; tmpl = tmpl.substr(0, upto); std::string t2 = build(m, field); tmpl = saved; return t2; };
+    if (dir == "get" && iff != std::string::npos && iff > in && (ic == std::string::npos || iff > ic) && r.chance(0.3)) {
+      size_t prevEnd = std::max(in + 5, ic == std::string::npos ? 0 : ic + 8);
+      topic = buildPrefix(prevEnd);
+      extra = " partial=1";
+    } else if (!m.write && ic != std::string::npos && ic < in && (iff == std::string::npos || ic < iff) && r.chance(0.25)) {
+      dir = "list";
+      topic = buildPrefix(ic + 8);
+      extra = " partial=1 listcircuit=" + m.circuit;
+    }
+    p.add("mqtt at=" + std::to_string(t) + " topic=" + hx(topic + "/" + dir) + " data=" + hx(data) + " msg=" + m.name + " dir=" + dir + (enc.empty() ? "" : " enc=" + enc) + extra);
     t += 1500 + static_cast<int64_t>(r.below(800));
   }
   p.add("cfg minms=" + std::to_string(t + 500) + " maxms=" + std::to_string(t + 60000));
   for (int i = 0; i < 10; i++) p.add("react ack1=A resp1=G");
+  return p;
+}
+
+// ---- c20s: enhanced adapter, foreign traffic, and the bus thread stalled around the arbitration of client requests ----
+// (late adapter answers then reach a protocol handler that has moved on; a request that gets lost blocks its client for good)
+static plan::Plan genC20s(uint64_t seed, const std::string& tier) {
+  Rng r(seed);
+  plan::Plan p;
+  addCommonCfg(&p, r, seed, "c20s", false);
+  p.add("cfg enhanced=1 minms=400 maxms=120000");
+  addArg(&p, "--pollinterval=2");
+  std::vector<MsgDef> defs = randomDefs(r, 3, {}, false, true);
+  for (auto& m : defs) emitMsg(&p, m);
+  MsgDef probe;
+  probe.circuit = "probe"; probe.name = "value"; probe.zz = 0x25; probe.sb = 0x0c; probe.id = {0x7e, 0x01}; probe.fields = {2};
+  emitMsg(&p, probe);
+  int n = tier == "thorough" ? 6 + static_cast<int>(r.below(10)) : 3 + static_cast<int>(r.below(6));
+  int at = 300 + static_cast<int>(r.below(300));
+  p.add("client id=0 at=" + std::to_string(at));
+  for (int k = 0; k < n; k++) {
+    const MsgDef& m = defs[r.below(static_cast<uint32_t>(defs.size()))];
+    if (m.write) addCmd(&p, r, 0, "read -f -c probe value", "tag=read msg=value force=1 prop=C20 tolerant=1");
+    else addCmd(&p, r, 0, "read -f -c " + m.circuit + " " + m.name, "tag=read msg=" + m.name + " force=1 prop=C20 tolerant=1");
+  }
+  addCmd(&p, r, 0, "read -f -c probe value", "tag=read msg=value force=1 prop=C20 tolerant=1");
+  // foreign telegrams all the time
+  int nt = 8 + static_cast<int>(r.below(20));
+  for (int i = 0; i < nt; i++) {
+    static const uint8_t masters[] = {0x00, 0x03, 0x10, 0x13, 0x17, 0x33, 0x37, 0x70, 0x71, 0xf1};
+    int nn = static_cast<int>(r.below(6));
+    Bytes master = {masters[r.below(10)], 0xfe, 0xb5, static_cast<uint8_t>(0x40 + r.below(8)), static_cast<uint8_t>(nn)};
+    if (master[0] == 0x31) master[0] = 0x10;
+    for (int q = 0; q < nn; q++) master.push_back(static_cast<uint8_t>(r.below(256)));
+    std::vector<simbus::Step> st;
+    for (uint8_t b : ref::renderMasterPart(master)) { simbus::Step s2; s2.who = 'M'; s2.b = b; st.push_back(s2); }
+    simbus::Step e; e.who = 'M'; e.b = ref::SYN; st.push_back(e);
+    p.add("bus script idle=" + std::to_string(r.below(3)) + " note=foreign steps=" + simbus::stepsToText(st));
+  }
+  int ns = 3 + static_cast<int>(r.below(6));
+  for (int i = 0; i < ns; i++) {
+    char buf[120];
+    snprintf(buf, sizeof(buf), "fault stall at=%d thread=bushandler ms=%d", at + static_cast<int>(r.below(static_cast<uint32_t>(n * 250 + 200))), 40 + static_cast<int>(r.below(280)));
+    p.add(buf);
+  }
+  for (int i = 0; i < 30; i++) p.add("react ack1=A resp1=G");
   return p;
 }
 
@@ -1021,6 +1177,7 @@ struct Reg {
     hz::registerFamily(hz::Family{"c09s", "l3", genC09s, "chained read in a slow round: main loop stalled between the parts"});
     hz::registerFamily(hz::Family{"c09f", "l3", genC09f, "reads with master side parameters and selection of one field by name and index"});
     hz::registerFamily(hz::Family{"c16", "l3", genC16, "access levels: interleaved TCP/HTTP sessions, ACL with overlapping level names"});
+    hz::registerFamily(hz::Family{"c20s", "l3", genC20s, "enhanced adapter, foreign traffic, bus thread stalled around the arbitration of client requests"});
     hz::registerFamily(hz::Family{"c20", "l3", genC20, "garbage on TCP, HTTP and bus, then valid probes"});
   }
 } g_reg;
